@@ -52,6 +52,46 @@ fn main() {
     let mut so = so.lock();
     let mut per_class: HashMap<String, usize> = HashMap::new();
     let (mut programs, mut ok_programs, mut rejected, mut encoded, mut findings) = (0usize, 0usize, 0usize, 0usize, 0usize);
+    if prop == "C16" {
+        // directed documents with several offenders of one kind (which one is reported must not depend on hash
+        // order): resolved repeatedly, every run with freshly keyed hash maps; one digest line each
+        if let Ok(raw) = std::fs::read_to_string(format!("{}/det_docs.json", arg("--data", "data"))) {
+            let docs: Value = serde_json::from_str(&raw).unwrap();
+            for d in docs.as_array().unwrap() {
+                let text = d["text"].as_str().unwrap().to_string();
+                let Ok(doc) = Document::parse(&text) else {
+                    eprintln!("a directed document does not parse: {text}");
+                    std::process::exit(2);
+                };
+                let run = || -> String {
+                    let mut m: IndexMap<BorrowedPackageKey, Vec<u8>> = IndexMap::new();
+                    for (name, version, bytes) in &all_pkgs {
+                        m.insert(BorrowedPackageKey::from_name_and_version(name, version.as_ref()), bytes.clone());
+                    }
+                    match guarded(|| doc.resolve(m)) {
+                        Err(p) => format!("panic: {p}"),
+                        Ok(Err(e)) => {
+                            use miette::Diagnostic;
+                            let labels: Vec<String> = e.labels().map(|l| l.map(|x| format!("{}+{}:{}", x.offset(), x.len(), x.label().unwrap_or(""))).collect()).unwrap_or_default();
+                            format!("error: {e} {labels:?}")
+                        }
+                        Ok(Ok(_)) => "ok".to_string(),
+                    }
+                };
+                let first = run();
+                for k in 0..15 {
+                    let again = run();
+                    if again != first {
+                        findings += 1;
+                        writeln!(so, "{}", json!({"class": "nondet", "kf": "", "text": text,
+                            "what": format!("run {} of the same document in one process gives `{again}`, the first gave `{first}`", k + 2)})).unwrap();
+                        break;
+                    }
+                }
+                writeln!(so, "{}", json!({"digest": wac_verif_harness::util::sha256_hex(first.as_bytes()), "doc": wac_verif_harness::util::sha256_hex(text.as_bytes())})).unwrap();
+            }
+        }
+    }
     for line in std::io::stdin().lock().lines() {
         let Some(js) = tlc_line(&line.unwrap(), "REPLAY") else { continue };
         let v: Value = serde_json::from_str(&js).unwrap();
